@@ -135,7 +135,8 @@ def fractionFromEllipseCenter (center : P2 R) (semiMajor ecc theta : R) (p : P2 
   let xr := (p.x - center.x) * cos theta + (p.y - center.y) * sin theta
   let yr := -(p.x - center.x) * sin theta + (p.y - center.y) * cos theta
   let semiMinor := semiMajor * sqrt ((1 : R) - pow ecc 2)
-  if semiMajor < (10 : R) * Scalar.dblMin ∨ semiMinor < (10 : R) * Scalar.dblMin then 0
+  -- `return infinity` (was `return false`, i.e. 0.0 = the centre: a degenerate ellipse contained every point; fixed upstream)
+  if semiMajor < (10 : R) * Scalar.dblMin ∨ semiMinor < (10 : R) * Scalar.dblMin then Scalar.inf
   else pow xr 2 / pow semiMajor 2 + pow yr 2 / pow semiMinor 2
 
 end Gwb
